@@ -6,6 +6,7 @@ import TsV.Model.Rename
 import TsV.Model.Serde
 import TsV.Model.Topsort
 import TsV.Model.Encode
+import TsV.Model.Generate
 /-!
 # `tsmodel`: one s-expression request per line in, one JSON answer per line out.
 The driver only decodes, calls the model's executable definitions and prints.
@@ -36,6 +37,27 @@ def pickSmallest (c : List ImportedType) : Option ImportedType :=
   c.foldl (fun acc i => match acc with
     | none => some i
     | some a => if Visitor.ImportedType.lt i a then some i else some a) none
+
+def decodePairs (x : Sx) : Option (List (Str × Str)) := do
+  (← x.asList?).mapM fun p => match p with
+    | .list [.str k, .str v] => some (k, v)
+    | _ => none
+
+def optStr : Sx → Option (Option Str)
+  | .atom "none" => some none
+  | .str s => some (some s)
+  | _ => none
+
+/-- `(typescript ((k v)…) header|none)` … one clause per back end -/
+def decodeLang : Sx → Option Generate.LangCfg
+  | .list [.atom "typescript", m, h] => do
+    some (.typescript { typeMappings := ← decodePairs m, versionHeader := ← optStr h })
+  | .list (.atom name :: _) => some (.unmodelled name.toList)
+  | _ => none
+
+def decodeSource : Sx → Option Generate.SourceFile
+  | .list [.str c, .str fn, .str p, f] => do some ⟨c, fn, p, ← Decode.file f⟩
+  | _ => none
 
 def decodeCtx : Sx → Option ParseContext
   | .list [.atom "ctx", .list ign, multi, .list tos] => do
@@ -137,6 +159,16 @@ def handle (st : DriverState) (req : Sx) : DriverState × J :=
         jOutcome (fun o => match o with | some d => Encode.parsed d | none => .null)
           (Visitor.parseFile ext ctx pickSmallest crate fileName path file)
       | _, _, _ => bad "parse")
+  | .list [.atom "generate", l, multi, .list tos, e, .list fs] =>
+    (st, match decodeLang l, multi.asBool?, Decode.strs tos, decodeExt st.U e, fs.mapM decodeSource with
+      | some lang, some m, some targets, some ext, some files =>
+        (match Generate.run ext lang m targets pickSmallest files with
+        | .ok (.outputs outs) => .obj [("ok", .obj (outs.map fun (c, t) => (String.ofList c, .str t)))]
+        | .ok (.parseErrors errs) =>
+          .obj [("errors", .arr (errs.map fun (e, f) => .arr [.str (Encode.errName e).toList, .str f]))]
+        | .err e => .obj [("err", .str (Encode.errName e).toList)]
+        | .panic p => .obj [("panic", .str p)])
+      | _, _, _, _, _ => bad "generate")
   | .list [.atom "tryfrom", t] =>
     (st, match Decode.ty t with
       | some ty => jOutcome Encode.ty (RustTypes.tryFrom ty)
